@@ -1038,7 +1038,11 @@ fn run_batch(rep: &mut Report, batch_seed: u64, start: u64, end: u64, only_seq: 
                     case,
                 );
             } else {
-                rep.inconclusive(format!("a {} call exceeded {} ms once but not on the rerun", service, CALL_LIMIT_MS));
+                // The same request returned when it was run again in a fresh process with a longer limit, so
+                // this was a slow call (loaded machine), not a call that does not return: the property held
+                // for it. Counted and noted, never a verdict and never a reason to withhold one.
+                rep.count("slow_calls_that_returned_on_the_rerun", 1);
+                rep.note(format!("a {} call exceeded {} ms once but returned on the rerun ({} ms limit)", service, CALL_LIMIT_MS, CALL_LIMIT_CONFIRM_MS));
             }
         } else if why.starts_with("signal") {
             rep.count("crashes", 1);
